@@ -1102,6 +1102,20 @@ Proof.
   exists pr. split; [exact Hg|]. split; [exact Hc|]. rewrite Hc. lia.
 Qed.
 
+Theorem bcast_heartbeat_commit r ctx r' :
+  bcast_heartbeat_with_ctx r ctx = Ok r' ->
+  exists new, r' = r <| r_msgs := r_msgs r ++ new |> /\
+    Forall (fun m =>
+      m_type m = MsgHeartbeat /\ m_commit m <= committed (r_log r) /\
+      exists pr, get_pr r (m_to m) = Some pr /\
+                 m_commit m = N.min (matched pr) (committed (r_log r)) /\
+                 m_commit m <= matched pr) new.
+Proof.
+  intros H. destruct (bcast_heartbeat_with_ctx_spec _ _ _ H) as (new & E & F).
+  exists new. split; [exact E|]. eapply Forall_impl; [|exact F].
+  intros m Hm. apply (is_heartbeat_of_commit r ctx m Hm).
+Qed.
+
 (* ================================================================== *)
 (* 7. Uncommitted-size accounting                                       *)
 (* ================================================================== *)
@@ -1141,7 +1155,7 @@ Proof.
 Qed.
 
 (* Theorem 6c: consequences.  Empty payloads are never refused; one proposal
-   is always admitted when nothing is outstanding; otherwise an admitted
+   is always accepted when nothing is outstanding; otherwise an accepted
    proposal keeps the total within max_uncommitted_size. *)
 Theorem uncommitted_bound r ents r' ok :
   maybe_increase_uncommitted_size r ents = (r', ok) ->
